@@ -67,113 +67,155 @@ func (a Affine) String() string {
 	return strings.ReplaceAll(strings.Join(parts, "+"), "+-", "-")
 }
 
-// ---- terms: sums of c * 2^(affine) --------------------------------------------
+// ---- terms: polynomials  Σ c · Π sym^k · 2^(affine) ------------------------------
+// Symbols are uninterpreted immutable values (descriptors) or uninterpreted function applications
+// such as Exp(x,y,m), Mod(x,m), ModInverse(x,m).
+
+type mono struct {
+	coef *big.Int
+	syms map[string]int
+	exp  Affine
+}
+
+func (m mono) key() string {
+	ks := make([]string, 0, len(m.syms))
+	for k, p := range m.syms {
+		if p == 1 {
+			ks = append(ks, k)
+		} else {
+			ks = append(ks, fmt.Sprintf("%s^%d", k, p))
+		}
+	}
+	sort.Strings(ks)
+	e := ""
+	if !(m.exp.isConst() && m.exp.C == 0) {
+		e = "2^(" + m.exp.String() + ")"
+	}
+	if e != "" {
+		ks = append(ks, e)
+	}
+	return strings.Join(ks, "*")
+}
 
 type Term struct {
-	Top    bool
-	Opaque string             // non-empty: an uninterpreted immutable value (descriptor)
-	M      map[string]*big.Int // exponent key -> coefficient
-	E      map[string]Affine   // exponent key -> exponent
+	Top bool
+	M   map[string]mono
 }
 
 func termTop() Term { return Term{Top: true} }
+func newTerm() Term { return Term{M: map[string]mono{}} }
 func termOpaque(d string) Term {
-	return Term{Opaque: d}
+	t := newTerm()
+	m := mono{coef: big.NewInt(1), syms: map[string]int{d: 1}, exp: affConst(0)}
+	t.M[m.key()] = m
+	return t
 }
-func termConst(c int64) Term {
-	t := Term{M: map[string]*big.Int{}, E: map[string]Affine{}}
-	if c != 0 {
-		a := affConst(0)
-		t.M[a.String()] = big.NewInt(c)
-		t.E[a.String()] = a
+func termConst(c int64) Term { return termBig(big.NewInt(c)) }
+func termBig(c *big.Int) Term {
+	t := newTerm()
+	if c.Sign() != 0 {
+		m := mono{coef: new(big.Int).Set(c), syms: map[string]int{}, exp: affConst(0)}
+		t.M[m.key()] = m
 	}
 	return t
 }
 func termPow2(e Affine) Term {
-	t := Term{M: map[string]*big.Int{}, E: map[string]Affine{}}
-	if e.isConst() && e.C >= 0 && e.C < 62 {
-		return termConst(1 << uint(e.C))
-	}
-	t.M[e.String()] = big.NewInt(1)
-	t.E[e.String()] = e
-	return t
+	t := newTerm()
+	m := mono{coef: big.NewInt(1), syms: map[string]int{}, exp: e}
+	t.M[m.key()] = m
+	return t.norm()
 }
-func (t Term) isPoly() bool { return !t.Top && t.Opaque == "" }
+func (t Term) isPoly() bool { return !t.Top }
+
+// opaqueName returns the symbol if the term is exactly one uninterpreted symbol.
+func (t Term) opaqueName() string {
+	if t.Top || len(t.M) != 1 {
+		return ""
+	}
+	for _, m := range t.M {
+		if m.coef.Cmp(big.NewInt(1)) == 0 && len(m.syms) == 1 && m.exp.isConst() && m.exp.C == 0 {
+			for k, p := range m.syms {
+				if p == 1 {
+					return k
+				}
+			}
+		}
+	}
+	return ""
+}
 func (t Term) add(u Term, sign int64) Term {
-	if !t.isPoly() || !u.isPoly() {
+	if t.Top || u.Top {
 		return termTop()
 	}
-	r := Term{M: map[string]*big.Int{}, E: map[string]Affine{}}
-	for k, c := range t.M {
-		r.M[k] = new(big.Int).Set(c)
-		r.E[k] = t.E[k]
+	r := newTerm()
+	for k, m := range t.M {
+		r.M[k] = mono{coef: new(big.Int).Set(m.coef), syms: m.syms, exp: m.exp}
 	}
-	for k, c := range u.M {
-		cc := new(big.Int).Mul(c, big.NewInt(sign))
+	for k, m := range u.M {
+		cc := new(big.Int).Mul(m.coef, big.NewInt(sign))
 		if old, ok := r.M[k]; ok {
-			cc.Add(cc, old)
+			cc.Add(cc, old.coef)
 		}
 		if cc.Sign() == 0 {
 			delete(r.M, k)
-			delete(r.E, k)
 		} else {
-			r.M[k] = cc
-			r.E[k] = u.E[k]
+			r.M[k] = mono{coef: cc, syms: m.syms, exp: m.exp}
 		}
 	}
 	return r.norm()
 }
 func (t Term) mul(u Term) Term {
-	if !t.isPoly() || !u.isPoly() {
+	if t.Top || u.Top {
 		return termTop()
 	}
-	r := termConst(0)
-	for k1, c1 := range t.M {
-		for k2, c2 := range u.M {
-			e := t.E[k1].add(u.E[k2])
-			m := Term{M: map[string]*big.Int{e.String(): new(big.Int).Mul(c1, c2)}, E: map[string]Affine{e.String(): e}}
-			r = r.add(m, 1)
+	r := newTerm()
+	for _, m1 := range t.M {
+		for _, m2 := range u.M {
+			sy := map[string]int{}
+			for k, p := range m1.syms {
+				sy[k] += p
+			}
+			for k, p := range m2.syms {
+				sy[k] += p
+			}
+			m := mono{coef: new(big.Int).Mul(m1.coef, m2.coef), syms: sy, exp: m1.exp.add(m2.exp)}
+			one := newTerm()
+			one.M[m.key()] = m
+			r = r.add(one, 1)
 		}
 	}
 	return r
 }
-func (t Term) lsh(e Affine) Term {
-	return t.mul(termPow2(e))
-}
+func (t Term) lsh(e Affine) Term { return t.mul(termPow2(e)) }
 
-// norm folds constant exponents into coefficients where small (2^k with const k < 4096 and no symbols).
+// norm folds constant powers of two into coefficients.
 func (t Term) norm() Term {
-	if !t.isPoly() {
+	if t.Top {
 		return t
 	}
-	r := Term{M: map[string]*big.Int{}, E: map[string]Affine{}}
-	zero := affConst(0)
-	for k, c := range t.M {
-		e := t.E[k]
-		if e.isConst() && e.C > 0 && e.C <= 8192 {
+	r := newTerm()
+	for _, m := range t.M {
+		c, e := m.coef, m.exp
+		if e.isConst() && e.C > 0 && e.C <= 16384 {
 			c = new(big.Int).Lsh(c, uint(e.C))
-			e = zero
+			e = affConst(0)
 		}
-		key := e.String()
-		if old, ok := r.M[key]; ok {
-			c = new(big.Int).Add(c, old)
+		nm := mono{coef: c, syms: m.syms, exp: e}
+		k := nm.key()
+		if old, ok := r.M[k]; ok {
+			nm.coef = new(big.Int).Add(nm.coef, old.coef)
 		}
-		if c.Sign() == 0 {
-			delete(r.M, key)
-			delete(r.E, key)
+		if nm.coef.Sign() == 0 {
+			delete(r.M, k)
 			continue
 		}
-		r.M[key] = c
-		r.E[key] = e
+		r.M[k] = nm
 	}
 	return r
 }
 func (t Term) String() string {
 	if t.Top {
 		return "⊤"
-	}
-	if t.Opaque != "" {
-		return t.Opaque
 	}
 	keys := make([]string, 0, len(t.M))
 	for k := range t.M {
@@ -185,24 +227,44 @@ func (t Term) String() string {
 	}
 	var parts []string
 	for _, k := range keys {
-		c := t.M[k]
-		e := t.E[k]
-		if e.isConst() && e.C == 0 {
+		c := t.M[k].coef
+		switch {
+		case k == "":
 			parts = append(parts, c.String())
-			continue
-		}
-		p := "2^(" + e.String() + ")"
-		if c.Cmp(big.NewInt(1)) == 0 {
-			parts = append(parts, p)
-		} else if c.Cmp(big.NewInt(-1)) == 0 {
-			parts = append(parts, "-"+p)
-		} else {
-			parts = append(parts, c.String()+"*"+p)
+		case c.Cmp(big.NewInt(1)) == 0:
+			parts = append(parts, k)
+		case c.Cmp(big.NewInt(-1)) == 0:
+			parts = append(parts, "-"+k)
+		default:
+			parts = append(parts, c.String()+"*"+k)
 		}
 	}
 	return strings.ReplaceAll(strings.Join(parts, " + "), "+ -", "- ")
 }
-func (t Term) equal(u Term) bool { return t.String() == u.String() && !t.Top && !u.Top }
+func (t Term) equal(u Term) bool { return !t.Top && !u.Top && t.norm().String() == u.norm().String() }
+
+// symbols returns the set of uninterpreted symbols occurring in the term.
+func (t Term) symbols() map[string]bool {
+	out := map[string]bool{}
+	for _, m := range t.M {
+		for k := range m.syms {
+			out[k] = true
+		}
+	}
+	return out
+}
+
+// fn builds an uninterpreted function application over argument terms.
+func termFn(name string, args ...Term) Term {
+	parts := make([]string, len(args))
+	for i, a := range args {
+		if a.Top {
+			return termTop()
+		}
+		parts[i] = a.String()
+	}
+	return termOpaque(name + "(" + strings.Join(parts, ", ") + ")")
+}
 
 // ---- parsing oracle terms -----------------------------------------------------
 
@@ -210,6 +272,9 @@ func (t Term) equal(u Term) bool { return t.String() == u.String() && !t.Top && 
 // "LmCommit+1" (symbols and integer constants joined by +/-), "" for 2^0.
 func pow2(exp string) Term       { return termPow2(parseAffine(exp)) }
 func tsum(ts ...Term) Term       { r := termConst(0); for _, t := range ts { r = r.add(t, 1) }; return r }
+func tsym(d string) Term         { return termOpaque(d) }
+func tmul(a, b Term) Term        { return a.mul(b) }
+func tsub(a, b Term) Term        { return a.add(b, -1) }
 func tconst(c int64) Term        { return termConst(c) }
 func tneg(t Term) Term           { return termConst(0).add(t, -1) }
 func parseAffine(s string) Affine {
@@ -385,6 +450,7 @@ type BigEval struct {
 	At   map[*ssa.Call][]Term // terms of the call's arguments (receiver first) just before the call
 	Ret  map[*ssa.Call]Term   // term of the receiver just after a mutator call
 	Glob map[string]Term      // terms stored into package-level big.Int fields (by address descriptor)
+	Use  map[ssa.Instruction]map[ssa.Value]Term // terms of *big.Int operands at stores, map updates, returns
 }
 
 type btState map[ssa.Value]Term
@@ -431,7 +497,7 @@ func siteOf(v ssa.Value) ssa.Value {
 }
 
 func NewBigEval(P *Program, fn *ssa.Function) *BigEval {
-	be := &BigEval{P: P, Fn: fn, At: map[*ssa.Call][]Term{}, Ret: map[*ssa.Call]Term{}, Glob: map[string]Term{}}
+	be := &BigEval{P: P, Fn: fn, At: map[*ssa.Call][]Term{}, Ret: map[*ssa.Call]Term{}, Glob: map[string]Term{}, Use: map[ssa.Instruction]map[ssa.Value]Term{}}
 	if fn == nil || fn.Blocks == nil {
 		return be
 	}
@@ -528,6 +594,11 @@ func (be *BigEval) termOf(st btState, v ssa.Value) Term {
 	if t, ok := st[s]; ok {
 		return t
 	}
+	if ex, ok := s.(*ssa.Extract); ok && ex.Index == 0 {
+		if t, ok := st[ex.Tuple]; ok {
+			return t
+		}
+	}
 	switch x := s.(type) {
 	case *ssa.Alloc:
 		return termConst(0)
@@ -536,7 +607,16 @@ func (be *BigEval) termOf(st btState, v ssa.Value) Term {
 			return termOpaque("nil")
 		}
 	case *ssa.Phi:
-		return termTop()
+		// a phi over immutable values is itself an immutable (opaque) value
+		for _, e := range x.Edges {
+			if _, tracked := st[siteOf(e)]; tracked {
+				return termTop()
+			}
+			if _, isAlloc := siteOf(e).(*ssa.Alloc); isAlloc {
+				return termTop()
+			}
+		}
+		return termOpaque(desc(x))
 	case *ssa.Call:
 		if isCallTo(x, "big.NewInt", "math/big.NewInt") {
 			if c, ok := constInt(x.Call.Args[0]); ok {
@@ -552,8 +632,26 @@ func (be *BigEval) termOf(st btState, v ssa.Value) Term {
 }
 
 func (be *BigEval) step(st btState, ins ssa.Instruction) {
+	switch ins.(type) {
+	case *ssa.Store, *ssa.MapUpdate, *ssa.Return:
+		m := map[ssa.Value]Term{}
+		for _, op := range ins.Operands(nil) {
+			if *op != nil && isBigIntPtr((*op).Type()) {
+				m[*op] = be.termOf(st, *op)
+			}
+		}
+		if len(m) > 0 {
+			be.Use[ins] = m
+		}
+	}
 	switch x := ins.(type) {
 	case *ssa.Call:
+		switch calleeName(x) {
+		case "common.ModPow":
+			st[x] = termFn("Exp", be.termOf(st, x.Call.Args[0]), be.termOf(st, x.Call.Args[1]), be.termOf(st, x.Call.Args[2]))
+		case "common.ModInverse":
+			st[x] = termFn("ModInverse", be.termOf(st, x.Call.Args[0]), be.termOf(st, x.Call.Args[1]))
+		}
 		m := bigMethod(x)
 		args := x.Call.Args
 		if m != "" || isBigIntPtrArgs(args) {
@@ -565,7 +663,7 @@ func (be *BigEval) step(st btState, ins ssa.Instruction) {
 					if af.isConst() {
 						ts[i] = termConst(af.C)
 					} else {
-						ts[i] = Term{M: map[string]*big.Int{}, E: map[string]Affine{}, Opaque: "uint:" + af.String()}
+						ts[i] = termOpaque("uint:" + af.String())
 					}
 				} else {
 					ts[i] = termTop()
@@ -620,10 +718,34 @@ func (be *BigEval) step(st btState, ins ssa.Instruction) {
 			} else {
 				res = termTop()
 			}
+		case "Exp":
+			if len(args) >= 4 {
+				if isNilConst(args[3]) {
+					res = termFn("Pow", get(1), get(2))
+				} else {
+					res = termFn("Exp", get(1), get(2), get(3))
+				}
+			} else {
+				res = termTop()
+			}
+		case "Mod":
+			res = termFn("Mod", get(1), get(2))
+		case "ModInverse":
+			res = termFn("ModInverse", get(1), get(2))
+		case "Div":
+			res = termFn("Div", get(1), get(2))
+		case "Rsh":
+			if a, ok := affineOf(args[2]); ok {
+				res = termFn("Rsh", get(1), termOpaque("uint:"+a.String()))
+				if a.isConst() {
+					res = termFn("Rsh", get(1), termConst(a.C))
+				}
+			} else {
+				res = termTop()
+			}
+		case "SetBytes":
+			res = termOpaque("SetBytes(" + desc(args[1]) + ")")
 		default:
-			res = termTop()
-		}
-		if res.Opaque != "" && m != "Set" {
 			res = termTop()
 		}
 		st[recv] = res
@@ -680,6 +802,8 @@ func (g Guard) String() string {
 	}
 	return fmt.Sprintf("%s %s %s", g.Subject, g.Rel, g.Bound)
 }
+
+var bigOneM = big.NewInt(1)
 
 var relNeg = map[string]string{"<": ">=", "<=": ">", "==": "!=", "!=": "==", ">=": "<", ">": "<="}
 var relFlip = map[string]string{"<": ">", "<=": ">=", "==": "==", "!=": "!=", ">=": "<=", ">": "<"}
@@ -764,10 +888,7 @@ func parseGuard(a Atom, be *BigEval) (Guard, bool) {
 				if ts, ok := be.At[c]; ok && len(ts) >= 2 {
 					g.Bound = ts[1]
 					// if the subject side is the computed one (e.g. bound.Cmp(x)), swap
-					if !ts[0].isPoly() || ts[0].Opaque != "" {
-						// keep
-					}
-					if ts[1].Opaque != "" && ts[0].isPoly() && ts[0].Opaque == "" {
+					if ts[1].opaqueName() != "" && !ts[0].Top && ts[0].opaqueName() == "" {
 						g.Subject, g.SubjV = desc(c.Call.Args[1]), c.Call.Args[1]
 						g.Rel = relFlip[r]
 						g.Bound = ts[0]
